@@ -23,6 +23,13 @@ __all__ = [
 FAILURE_CODE = 422
 
 
+def _resplit(converter: Converter, prefix: str, identifier: str) -> tuple[str, str]:
+    """Split at the first delimiter, since URL routing matches the prefix greedily."""
+    curie = f"{prefix}{converter.delimiter}{identifier}"
+    prefix, _, identifier = curie.partition(converter.delimiter)
+    return prefix, identifier
+
+
 def get_flask_blueprint(converter: Converter, **kwargs: Any) -> flask.Blueprint:
     """Get a blueprint for :class:`flask.Flask`.
 
@@ -77,6 +84,7 @@ def get_flask_blueprint(converter: Converter, **kwargs: Any) -> flask.Blueprint:
     @blueprint.route(f"/<prefix>{converter.delimiter}<path:identifier>")
     def resolve(prefix: str, identifier: str) -> Response:
         """Resolve a CURIE."""
+        prefix, identifier = _resplit(converter, prefix, identifier)
         location = converter.expand_pair(prefix, identifier)
         if location is None:
             prefixes = "".join(f"\n- {p}" for p in sorted(converter.get_prefixes()))
@@ -223,6 +231,7 @@ def get_fastapi_router(converter: Converter, **kwargs: Any) -> fastapi.APIRouter
         ),
     ) -> RedirectResponse:
         """Resolve a CURIE."""
+        prefix, identifier = _resplit(converter, prefix, identifier)
         location = converter.expand_pair(prefix, identifier)
         if location is None:
             prefixes = ", ".join(sorted(converter.get_prefixes()))
